@@ -48,6 +48,13 @@ func c16Spin(n int) {
 }
 
 func c16RunRace(fns []func(), nCount int, spins []int) (maxInside int, ok bool) {
+	maxInside, ok, _ = c16RunRaceHang(fns, nCount, spins, nil)
+	return
+}
+
+// c16RunRaceHang: as c16RunRace; if the racers have not all returned after 2 s, hang() (a
+// logical parked-forever classifier) is consulted: true ends the wait with hung=true.
+func c16RunRaceHang(fns []func(), nCount int, spins []int, hang func() bool) (maxInside int, ok bool, hung bool) {
 	r := &c16Race{}
 	var wg sync.WaitGroup
 	k := len(fns)
@@ -96,10 +103,18 @@ func c16RunRace(fns []func(), nCount int, spins []int) (maxInside int, ok bool) 
 	go func() { wg.Wait(); close(done) }()
 	select {
 	case <-done:
-	case <-time.After(20 * time.Second):
-		return int(r.maxIn.Load()), false
+		return int(r.maxIn.Load()), r.timeout.Load() == 0, false
+	case <-time.After(2 * time.Second):
 	}
-	return int(r.maxIn.Load()), r.timeout.Load() == 0
+	if hang != nil && hang() {
+		return int(r.maxIn.Load()), false, true
+	}
+	select {
+	case <-done:
+		return int(r.maxIn.Load()), r.timeout.Load() == 0, false
+	case <-time.After(18 * time.Second):
+		return int(r.maxIn.Load()), false, false
+	}
 }
 
 // ---- counting fake of the cloud-control interface the bridge reports to -----------
@@ -211,7 +226,7 @@ func c16BridgeMain(t *testing.T) {
 	run.Floor("trickle_runs_ctx_exit_with_pending_batch", 10)
 	scope := []string{"tunnox-core/internal/protocol/session/tunnel", "tunnox-core/internal/stream"}
 
-	for trial := 0; trial < n && run.Violations() < 20 && run.Counter("leak_violations") < 3; trial++ {
+	for trial := 0; trial < n && run.Violations() < 20 && run.Counter("leak_violations") < 3 && run.Counter("watchdog") < 3; trial++ {
 		path := paths[r.Intn(len(paths))]
 		k := ks[r.Intn(len(ks))]
 		s2t := c16Sizes[r.Intn(len(c16Sizes))]
